@@ -80,6 +80,25 @@ Theorem C15_later_runs_never_poisoned : forall (H : fpr -> name) (enc : con -> b
 Proof. exact maybe_run_fix_never_poisoned. Qed.
 Print Assumptions C15_later_runs_never_poisoned.
 
+(* directory_split="auto" (the constructor's default) after a crash.  The fixed writer puts its
+   temporary file NEXT TO the entry (inside the sub-directory for a split key), so whatever crash
+   point: a split cache still shows directories only at its top level and is detected as split; a
+   flat cache that holds an older entry still shows files only and is detected as flat.  Hence a
+   later process built with default arguments looks for the older entries where they are. *)
+Theorem C15_auto_layout_stable_split : forall (V : Type) (encode : V -> bytes) a b v f n,
+  top_all_dirs f ->
+  let g := crash_at n (setitem_ops_fix V encode (KT [a; b]) v) f in
+  top_all_dirs g /\ split_auto g = true /\ split_auto f = true.
+Proof. exact auto_layout_stable_split. Qed.
+Print Assumptions C15_auto_layout_stable_split.
+
+Theorem C15_auto_layout_stable_flat : forall (V : Type) (encode : V -> bytes) h v f n h0 nd0,
+  top_all_files f -> fs_get [h0] f = Some nd0 -> h0 <> h -> h0 <> TMPMARK :: h ->
+  let g := crash_at n (setitem_ops_fix V encode (KS h) v) f in
+  top_all_files g /\ split_auto g = false /\ split_auto f = false.
+Proof. exact auto_layout_stable_flat. Qed.
+Print Assumptions C15_auto_layout_stable_flat.
+
 (* ---- non-vacuity: concrete crash points with the toy prefix-free codec ----------------- *)
 Example C15_example_cur_poisoned :
   let k := KT [[1;2]; [3;4]] in
@@ -87,6 +106,13 @@ Example C15_example_cur_poisoned :
   fst (contains_cur nat (mkDD [] true f) k) = true /\
   fst (getitem_cur nat toy_dec 3 (mkDD [] true f) k) = UnboundErr.
 Proof. vm_compute. split; reflexivity. Qed.
+
+(* a file at the top level of a split cache (a temporary file created in the wrong directory)
+   does flip the detected layout *)
+Example C15_example_orphan_at_top_level :
+  let f := [([], FDir); ([[1;2]], FDir); ([[1;2]; [3;4]], FFile [7;0])] in
+  split_auto f = true /\ split_auto (fs_set [[46; 3; 4]] (FFile []) (fs_del [[1;2]] f)) = false.
+Proof. exact orphan_at_top_level_flips_layout. Qed.
 
 Example C15_example_fix_all_crash_points :
   let k := KT [[1;2]; [3;4]] in
